@@ -55,6 +55,25 @@ func verifyTxs(block *types.Block, txGuard TxGuard, chainId uint16) error {
 		log.Error("Consensus verify fail: tx is appeared in parent blocks")
 		return ErrVerifyBlockFailed
 	}
+	// A transaction must not appear twice in the block itself either, on its own or inside a box. The tx guard only knows the parent blocks
+	appeared := make(map[common.Hash]struct{})
+	for _, tx := range block.Txs {
+		hashes := []common.Hash{tx.Hash()}
+		if tx.Type() == params.BoxTx {
+			if box, err := types.GetBox(tx.Data()); err == nil {
+				for _, subTx := range box.SubTxList {
+					hashes = append(hashes, subTx.Hash())
+				}
+			}
+		}
+		for _, hash := range hashes {
+			if _, ok := appeared[hash]; ok {
+				log.Error("Consensus verify fail: tx is appeared twice in the block", "tx", hash.Hex())
+				return ErrVerifyBlockFailed
+			}
+			appeared[hash] = struct{}{}
+		}
+	}
 	for _, tx := range block.Txs {
 		if err := tx.VerifyTxBody(chainId, uint64(block.Time()), true); err != nil {
 			return ErrVerifyBlockFailed
